@@ -314,7 +314,7 @@ func (ft *funcTrans) instr(in ssa.Instruction) {
 		if nt, ok := fi.Go.(*types.Named); ok && nt.Obj().Pkg() != nil && !strings.HasPrefix(nt.Obj().Pkg().Path(), modPath) {
 			// address of a field holding an opaque struct of another package (e.g. sync.WaitGroup):
 			// usable as an argument of calls; never dereferenced by the verified code
-			w.declFun("faddr", []string{"Int", "Int"}, "Int")
+			w.declFaddr()
 			v.T = Term{fmt.Sprintf("(faddr %s %d)", base.T.S, x.Field), w.sortOf(x.Type())}
 			v.Opaque = true
 		}
@@ -464,12 +464,12 @@ func (ft *funcTrans) instr(in ssa.Instruction) {
 		r := ft.freshRef(st)
 		ft.define(x, Term{r, w.sortOf(x.Type())})
 	case *ssa.Send:
-		ft.sendReqs(ft.termOf(x.X), x.Pos())
+		ft.sendReqs(ft.termOf(x.X), ft.termOf(x.Chan), x.Pos())
 		ft.asyncPoint()
 	case *ssa.Select:
 		for _, stt := range x.States {
 			if stt.Dir == types.SendOnly && stt.Send != nil {
-				ft.sendReqs(ft.termOf(stt.Send), stt.Pos)
+				ft.sendReqs(ft.termOf(stt.Send), ft.termOf(stt.Chan), stt.Pos)
 			}
 		}
 		ft.asyncPoint()
@@ -661,6 +661,14 @@ func (ft *funcTrans) binop(x *ssa.BinOp) {
 			ft.panicCheck("divzero", fmt.Sprintf("(not (= %s %s))", b.S, w.zero(b.Sort).S), x.Pos())
 		}
 		ft.define(x, w.arith(x.Op.String(), a, b))
+		if x.Op == token.REM && !w.BV && a.Sort.Kind == KInt {
+			// ground facts about % on a non-negative dividend and positive divisor (valid lemmas;
+			// they keep proofs about wrap-around counters in linear arithmetic)
+			v := ft.vals[x].T.S
+			w.addFact(fmt.Sprintf("(=> (and (>= %s 0) (> %s 0)) (and (>= %s 0) (< %s %s)))", a.S, b.S, v, v, b.S))
+			w.addFact(fmt.Sprintf("(=> (and (>= %s 0) (< %s %s)) (= %s %s))", a.S, a.S, b.S, v, a.S))
+			w.addFact(fmt.Sprintf("(=> (and (> %s 0) (<= %s %s) (< %s (* 2 %s))) (= %s (- %s %s)))", b.S, b.S, a.S, a.S, b.S, v, a.S, b.S))
+		}
 	default:
 		r := w.arith(x.Op.String(), a, b)
 		if r.Sort.Kind != KBool {
@@ -800,7 +808,7 @@ func (ft *funcTrans) next(x *ssa.Next) {
 var _ = constant.MakeBool
 
 // sendReqs: obligations on a value about to be sent on a channel.
-func (ft *funcTrans) sendReqs(v Term, pos token.Pos) {
+func (ft *funcTrans) sendReqs(v Term, ch Term, pos token.Pos) {
 	if ft.c == nil {
 		return
 	}
@@ -811,6 +819,7 @@ func (ft *funcTrans) sendReqs(v Term, pos token.Pos) {
 		}
 		ec := ft.localCtx(ft.curSt)
 		ec.env["sent"] = v
+		ec.env["sentTo"] = ch
 		t := ec.evalBool(sr.E)
 		ft.nAsserts++
 		o := ft.obligation("sendreq", fmt.Sprintf("send%d.sendreq%d", site, k+1), sr.Src, t.S)
